@@ -224,6 +224,43 @@ def stepPkt (s : St) (idx : Nat) (impl : String) : St × StepOut :=
       return (st, { model := model, tags := tags, fails := fails })
   | _ => (s, { model := "bad-line" })
 
+/-- the run line of a resumption / 0-RTT scenario -/
+def stepRunZ (s : St) (impl : String) : St × StepOut := Id.run do
+  let m := kvOf (words impl)
+  let mut fails : List (String × String × String) := []
+  let mode := s.scn.get "zrtt"
+  let hs := m.get "hs"
+  let np := natOf (m.get "npayload")
+  let nr := natOf (m.get "nresend")
+  let no := natOf (m.get "nother")
+  if b1 (m.get "hang") || hs == "hang" then
+    fails := fails ++ [("dial_hang", "-", impl)]
+  -- 0-RTT data reaches the server application exactly once if accepted and never if rejected
+  if np > 1 then
+    fails := fails ++ [("zero_rtt_exactly_once_or_never", "-", s!"delivered {np} times: {impl}")]
+  if hs == "complete" then
+    if m.get "acc" != "ok" || m.get "c0" != m.get "s0" || m.get "cv" != m.get "sv" || m.get "calpn" != m.get "salpn" then
+      fails := fails ++ [("success_without_agreement", "-", impl)]
+    if b1 (m.get "c0") then
+      if !(np == 1 && nr == 0 && no == 0) then
+        fails := fails ++ [("zero_rtt_exactly_once_or_never", "-", s!"accepted but server read npayload={np} nresend={nr} nother={no}")]
+      if mode != "accept" then
+        fails := fails ++ [("zero_rtt_accepted_against_config", "-", impl)]
+    else if b1 (m.get "early") then
+      -- rejected: never delivered, the API says Err0RTTRejected, the application's resend arrives once
+      if !(np == 0 && no == 0 && nr == 1) then
+        fails := fails ++ [("zero_rtt_exactly_once_or_never", "-", s!"rejected but server read npayload={np} nresend={nr} nother={no}")]
+      if m.get "after" != "E:0rtt_rejected/E:0rtt_rejected" || m.get "next" != "nil" then
+        fails := fails ++ [("zero_rtt_reject_not_reported", "-", impl)]
+    else if !(np == 1 && no == 0) then
+      fails := fails ++ [("zero_rtt_exactly_once_or_never", "-", s!"no early data attempted, server read npayload={np} nother={no}")]
+  if m.get "cleft" != "0" || m.get "sleft" != "0" then
+    fails := fails ++ [("state_not_released", "-", impl)]
+  let tag := if hs == "complete" then (if b1 (m.get "c0") then "zrtt:accepted" else if b1 (m.get "early") then "zrtt:rejected" else "zrtt:not_attempted") else s!"zrtt:{hs}"
+  -- for the convergence monitor the outcome of the dial is the outcome of the handshake
+  let m' : KV := ("dial", if hs == "complete" then "nil" else hs) :: m.filter (fun p => p.1 != "dial")
+  return ({ s with ran := true, run := m', ntrace := natOf (m.get "ntrace") }, { model := impl, tags := [tag, "zrtt:" ++ mode], fails := fails })
+
 def stepRun (s : St) (impl : String) : St × StepOut := Id.run do
   let m := kvOf (words impl)
   let mut fails : List (String × String × String) := []
@@ -275,7 +312,10 @@ def step (s : St) (op impl : String) : St × StepOut :=
   | "scn" :: rest => ({ s with scn := kvOf rest }, { model := impl, tags := rest.map (fun w => "scn:" ++ w) })
   | "fault" :: _ :: _ :: k :: _ => ({ s with nFault := s.nFault + 1 }, { model := impl, tags := ["fault:" ++ k] })
   | "inj" :: _ :: rest => ({ s with nInj := s.nInj + 1 }, { model := impl, tags := ["inj:" ++ (kvOf rest).get "kind"] })
-  | ["run"] => if impl == "skip" then (s, { model := impl }) else stepRun s impl
+  | ["run"] =>
+    if impl == "skip" then (s, { model := impl })
+    else if s.scn.get "zrtt" != "" && s.scn.get "zrtt" != "none" then stepRunZ s impl
+    else stepRun s impl
   | ["pkt", i] => if impl == "skip" then (s, { model := impl }) else stepPkt s (natOf i) impl
   | ["deadline"] => if impl == "skip" then (s, { model := impl }) else stepDeadline s impl
   | _ => (s, { model := "bad-op" })
